@@ -242,6 +242,10 @@ def _split(it, a, k, n):
                 return VList([VStr(word, s.kind)])
             it.ctx.assume(z3.Length(rest) > 0, "split(None,1):rest-nonempty")
             return VList([VStr(word, s.kind), VStr(rest, s.kind)])
+        if maxsplit is None and not it.spec:
+            # s.split(): an unknown number of unknown white-space-free words (over-approximation, sound)
+            from .fresh import fresh_value
+            return fresh_value(it, ("list", s.kind), it.ctx.fresh_name("ws_split"))
         raise Unsupported("split() on whitespace of symbolic string")
     sep = _other(it, s, sep, n)
     csep = concrete_str(sep.z)
@@ -285,6 +289,9 @@ def _rsplit(it, a, k, n):
 def _join(it, a, k, n):
     s = a[0]
     seq = it.need(a[1])
+    if isinstance(seq, VList) and not seq.concrete:
+        # join of a list of unknown length: an unconstrained string (over-approximation, sound)
+        return VStr(z3.String(it.ctx.fresh_name("joined")), s.kind)
     items = it.concrete_items(seq, n)
     if not items:
         return VStr(z3.StringVal(""), s.kind)
@@ -353,6 +360,10 @@ def _encode(it, a, k, n):
             if not it.spec and not it.branch(ok, "encode-ascii"):
                 it.raise_("UnicodeEncodeError", node=n)
             return VStr(s.z, "bytes")
+        if ce == "ignore":
+            r = ENC(s.z, z3.StringVal("ascii:ignore"))
+            it.ctx.assume(z3.InRe(r, z3.Star(_range("\x00", "\x7f"))), "encode(ascii, ignore):ascii-output")
+            return VStr(r, "bytes")
     codec_z = z3.StringVal(cc)
     if cc in ("utf-8", "utf8"):
         # ASCII text is its own UTF-8 encoding (ground fact)
